@@ -118,10 +118,17 @@ Inductive path :=
                       Also `typedef T A; A[n] a = [..];` (initialization.cpp handle_array_literal_initialization -> the same function) *)
 | PArrLitAssignN   (* m = [[..]..];       same function, nested literal: clamp only *)
 | PArrCopy         (* a = b; T[n] a = f(); array parameter: the Variable is replaced wholesale (element type included): nothing *)
-| PMember          (* s.m = e; s.m op= e; S s = {e,..}; s.a[i] = e;  member_assignment.cpp / managers/structs/assignment.cpp: the unsigned clamp
-                      only, no range check (findings C04-struct-member-unchecked, C04-generic-struct-member) *)
-| PIndirect        (* o.in.m = e; p->m = e; *p = e; T& q = t; q = e;  nested members, arrow, pointer and reference stores write Variable::value
-                      directly: no clamp, no check (findings C04-struct-member-unchecked, -pointer-store-, -reference-store-unchecked) *).
+| PMember          (* s.m = e; s.m op= e; s.m++ / --s.m; s.a[i] = e; s.a[i][j] = e; Box<T> b; b.v = e;  managers/structs/assignment.cpp
+                      StructAssignmentManager::assign_struct_member (both overloads), assign_struct_member_array_element and the member
+                      branch of incdec.cpp evaluate_incdec (fix a3f0b3d): unsigned clamp, then check_type_range with the member's declared type *)
+| PMemberLit       (* S s = {e,..}; S s = {m: e}; s = {m: e}; nested and generic literals;  managers/structs/assignment.cpp
+                      process_named_initialization / process_positional_initialization: the `clamp_unsigned_member` lambda only, no range
+                      check (finding C04-struct-literal-unchecked - fix a3f0b3d does not cover literals) *)
+| PIndirect        (* o.in.m = e; p->m = e; ( *p ).m = e; ps[i].m = e; S& r = s; r.m = e; self.m = e; *p = e; T& q = t; q = e;  nested members,
+                      members reached through a pointer / a reference / self / an element of a struct array, pointer and reference stores
+                      write Variable::value directly: no clamp, no check (findings C04-nested-member-store-unchecked,
+                      C04-member-through-pointer-unchecked, C04-member-through-reference-unchecked, C04-struct-array-member-unchecked,
+                      C04-pointer-store-unchecked, C04-reference-store-unchecked) *).
 
 (* the value a later read of the cell yields (what the property speaks about), or the error *)
 Definition mech_store (p : path) (t : ty) (v : Z) : ctl Z :=
@@ -134,9 +141,9 @@ Definition mech_store (p : path) (t : ty) (v : Z) : ctl Z :=
   | PAssignFromElemN | PReturnElemN => if looks_like_pointer v then Val (mech_clamp (uns t) v) else clamp_check t v
   | PAssignHint h | PDeclMulti h => mech_assign_variable h t v
   | PAssignCall | PConstGlobal => mech_assign_variable HNone t v
-  | PDeclCall | PDeclTypedef => clamp_check t v
+  | PDeclCall | PDeclTypedef | PMember => clamp_check t v
   | PDeclTypedefTernary | PArrCopy | PIndirect => Val v
-  | PMember => Val (mech_clamp (uns t) v)
+  | PMemberLit => Val (mech_clamp (uns t) v)
   | PStaticAssign => mech_check (signed_of t) v
   | PElem1Global => match mech_check (signed_of t) v with Val w => Val (narrow_read t w) | other => other end
   | PArrLitAssign1 => Val (narrow_read t (mech_clamp (uns t) v))
@@ -152,7 +159,7 @@ Definition mech_elem1_update (p : path) (t : ty) (old delta : Z) : ctl Z :=
   end.
 
 Definition checked_paths : list path := [PDecl; PAssign; PCompound; PArg; PGlobalScalar; PIncDecVar; PReturn; PElemN; PLitN;
-                                         PDeclCall; PDeclTypedef].
+                                         PDeclCall; PDeclTypedef; PMember].
 (* the callers of assign_variable: as demanded whenever the resolved type is not bool and the hint is not TYPE_POINTER *)
 Definition hinted_paths (h : hint) : list path := [PAssignHint h; PDeclMulti h].
 Definition unhinted_paths : list path := [PAssignCall; PConstGlobal].
@@ -161,7 +168,7 @@ Definition element_paths : list path := [PElem1; PElem1Compound; PIncDecElem1; P
 Definition unchecked_paths : list path :=
   [PStatic; PElem1; PElem1Compound; PIncDecElem1; PLit1; PGlobalArr; PAssignFromElemN; PReturnElemN;
    PAssignHint (HTy TBool); PDeclMulti (HTy TBool); PDeclTypedefTernary; PStaticAssign; PElem1Global; PArrLitAssign1; PArrLitAssignN; PArrCopy;
-   PMember; PIndirect].
+   PMemberLit; PIndirect].
 
 (* the documented ranges (docs/spec.md "基本型"): n-bit two's complement / n-bit unsigned *)
 Definition bits_of (b : ity) : option Z :=
